@@ -59,38 +59,54 @@ fn c11_reach() {
 }
 
 /// `handle_timer` from an arbitrary (reach, tries, deny flag, version, pending) state.
+#[cfg(kani)]
+fn timer_check(src: &Src, pre: &Pre, before: &sh::SourceState, acts: &Acts) {
+    let post = sh::state(src);
+    let unreachable = pre.reach == 0;
+    if unreachable && pre.tries >= 3 {
+        assert!(acts.n == 1, "C11: exactly one action for an unreachable source");
+        if pre.have_deny {
+            assert!(acts.kinds[0] == A_DEMOB, "C11: unreachable + deny seen => Demobilize");
+        } else {
+            assert!(acts.kinds[0] == A_RESET, "C11: unreachable => Reset");
+        }
+        assert!(acts.sent.is_none(), "C11: an unreachable source sends nothing further");
+        assert!(post == *before, "C11: reset/demobilise decision leaves the state alone");
+        assert!(pending_unchanged(src, pre), "C11: no new request");
+        assert!(unsafe { stubs::HASHMAP_INSERTS } == 0, "C11: nothing published");
+    } else {
+        assert!(acts.n == 2 && acts.kinds[0] == A_SEND && acts.kinds[1] == A_TIMER, "C11: a live source polls: [Send, SetTimer]");
+        assert!(post.tries == pre.tries.saturating_add(1), "C11: tries counts polls");
+        assert!(post.reach == pre.reach << 1, "C11: a poll shifts the reach register");
+        assert!(post.have_deny_rstr_response == pre.have_deny, "C11: deny memory only cleared by a usable answer");
+        assert!(post.pending, "C11: a request is pending after a poll");
+    }
+    kani::cover!(acts.n == 1 && acts.kinds[0] == A_RESET, "reset");
+    kani::cover!(acts.n == 1 && acts.kinds[0] == A_DEMOB, "demobilise");
+    kani::cover!(acts.n == 2 && pre.reach == 0 && pre.tries == 2, "third start-up poll still sent");
+    kani::cover!(acts.n == 2 && pre.reach == 0x80 && post.reach == 0, "eighth missed poll sent, source becomes unreachable");
+    kani::cover!(acts.n == 2 && pre.tries == usize::MAX, "tries saturates");
+}
+
 sharness! {
     #[kani::unwind(30)]
     fn c11_timer() {
         stubs::symbolic_clock();
-        let (mut src, pre) = any_source(PvClass::Any);
+        let (mut src, pre) = any_source(PvClass::V4Family);
         let before = sh::state(&src);
-        let acts = collect(src.handle_timer());
-        let post = sh::state(&src);
-        let unreachable = pre.reach == 0;
-        if unreachable && pre.tries >= 3 {
-            assert!(acts.n == 1, "C11: exactly one action for an unreachable source");
-            if pre.have_deny {
-                assert!(acts.kinds[0] == A_DEMOB, "C11: unreachable + deny seen => Demobilize");
-            } else {
-                assert!(acts.kinds[0] == A_RESET, "C11: unreachable => Reset");
-            }
-            assert!(acts.sent.is_none(), "C11: an unreachable source sends nothing further");
-            assert!(post == before, "C11: reset/demobilise decision leaves the state alone");
-            assert!(pending_unchanged(&src, &pre), "C11: no new request");
-            assert!(unsafe { stubs::HASHMAP_INSERTS } == 0, "C11: nothing published");
-        } else {
-            assert!(acts.n == 2 && acts.kinds[0] == A_SEND && acts.kinds[1] == A_TIMER, "C11: a live source polls: [Send, SetTimer]");
-            assert!(post.tries == pre.tries.saturating_add(1), "C11: tries counts polls");
-            assert!(post.reach == pre.reach << 1, "C11: a poll shifts the reach register");
-            assert!(post.have_deny_rstr_response == pre.have_deny, "C11: deny memory only cleared by a usable answer");
-            assert!(post.pending, "C11: a request is pending after a poll");
-        }
-        kani::cover!(acts.n == 1 && acts.kinds[0] == A_RESET, "reset");
-        kani::cover!(acts.n == 1 && acts.kinds[0] == A_DEMOB, "demobilise");
-        kani::cover!(acts.n == 2 && pre.reach == 0 && pre.tries == 2, "third start-up poll still sent");
-        kani::cover!(acts.n == 2 && pre.reach == 0x80 && post.reach == 0, "eighth missed poll sent, source becomes unreachable");
-        kani::cover!(acts.n == 2 && pre.tries == usize::MAX, "tries saturates");
+        let acts = timer_step!(v4fam, src, pre);
+        timer_check(&src, &pre, &before, &acts);
+    }
+}
+
+sharness! {
+    #[kani::unwind(30)]
+    fn c11_timer_v5() {
+        stubs::symbolic_clock();
+        let (mut src, pre) = any_source(PvClass::V5Family);
+        let before = sh::state(&src);
+        let acts = timer_step!(v5fam, src, pre);
+        timer_check(&src, &pre, &before, &acts);
     }
 }
 
